@@ -5,21 +5,23 @@ from __future__ import annotations
 from fractions import Fraction
 
 import common
-from common import cbool, clist, cnat, copt, cq, fjson, fparse, frac_of_float
+from common import cbool, clist, cnat, copt, cq, cz, fjson, fparse, frac_of_float
 
 PID = "C08"
 PROPS_FILE = "Props/C08.v"
 GEN_FILES: list[str] = []
-MODEL_FILES = ["Model/C08_bias.v"]
+MODEL_FILES = ["Model/C08_bias.v", "Model/C08_vocab.v"]
 ALLOWED_AXIOMS: list[str] = []
-CASE_HEADER = ("From Coq Require Import ZArith QArith.\nFrom LK Require Import Lib.QLib Model.C08_bias.\n"
+CASE_HEADER = ("From Coq Require Import ZArith QArith.\nFrom LK Require Import Lib.QLib Model.C08_bias Model.C08_vocab.\n"
                "Open Scope Q_scope.")
 TRUSTED = [
     "Coq 8.16.1 kernel + vm_compute (no native_compute); Print Assumptions of every theorem in Props/C08.v: closed under the global context",
     "hand-written model of BiasModel.learn / compute_for_items, PopScorer._train_internal / __call__ and TimeBoundedPopScore.train "
     "(Model/C08_bias.v), tied to the source by the correspondence cases evaluated inside Coq on exact rationals "
     "(float32 results, tolerance 2^-20 relative to max(1,|value|)); the cumulative-share variant is compared through the verified checker quantile_ok_b",
-    "harness/props/c08.py: exact float->rational conversion, vocabulary numbers taken from the trained objects, error enum",
+    "harness/props/c08.py: exact float->rational conversion, vocabulary numbers taken from the trained objects (the model's numbers are the "
+    "case's logical indexes; identifiers reach the model as integer codes: the integer itself, or the rank of a string among the case's strings "
+    "in code-point order), error enum",
     "numpy / pandas (add.at, divide(where=), rank, sort_values, cumsum, value_counts, reindex) and the Dataset are exercised, not verified",
 ]
 ASSUMPTIONS = [
@@ -28,11 +30,16 @@ ASSUMPTIONS = [
     "ratings in a query history are finite; (user, item) pairs are rated at most once",
     "cutoffs and timestamps are generated at half-second steps (whole seconds for integer and datetime64[s] columns), so every value is exact in its representation",
 ]
-RULE = ("structured generator: 1-8 users x 1-8 items (pre-declared, so some have no ratings), ratings in half steps, timestamp representation as a "
+RULE = ("structured generator: 1-8 users x 1-8 items (some without ratings), identifiers as a generated dimension (integer or string, independently "
+        "for users and items; special values 0, '', negative, 2^31, 2^53+1, 2^63-1, strings whose order differs from their numeric order; the logical "
+        "order is unrelated to the identifier order; unknown identifiers may be the falsy ones), dataset assembly as a generated dimension "
+        "(from_interactions_df, or DatasetBuilder with entities declared in several batches / inserted by 1-3 interaction batches / added last, so "
+        "the vocabularies are in arrival order), ratings in half steps, timestamp representation as a "
         "generated dimension (integer seconds, float seconds, datetime64[s|ms|us|ns] tz-naive or tz-aware in UTC / America/Denver / Asia/Kolkata, "
         "or no timestamps), datasets built with DatasetBuilder or from_interactions_df, damping scalar, per-entity dict (possibly missing a key) or (user, item) "
         "tuple with values in {0, 1/2, 5, ...}, every subset of {user, item}, 2-5 queries (known / unknown / no user, rated history with "
-        "unknown items, empty history, history without ratings), all three popularity variants, 3 cutoffs before/inside/after the data; "
+        "unknown items, empty history, history without ratings; given as RecQuery, bare identifier, NumPy scalar, item list or None; item lists by "
+        "identifier or by number), all three popularity variants scored for a probe list and for the whole catalogue, 3 cutoffs before/inside/after the data; "
         "edge stream: single rating, constant ratings, one user or one item.  non-trivial = at least 3 ratings with 2 distinct values, "
         "2 distinct item counts and a query with a rated history; distinct = by hash of the case")
 
@@ -46,6 +53,63 @@ TICKS = {"s": 1, "ms": 10**3, "us": 10**6, "ns": 10**9}
 # ---------------------------------------------------------------------------------------------
 # generator
 # ---------------------------------------------------------------------------------------------
+
+
+INT_SPECIAL = [0, -1, 1, -7, 2**31 - 1, 2**31, -2**31 - 1, 2**40 + 3, 2**53 + 1, 2**62, -2**62, 2**63 - 1]
+STR_SPECIAL = ["", " ", "0", "-1", "a", "A", "B", "b", "10", "9", "09", "\u00fc", "Z", "\u00e9", "i", "u"]
+FALSY = {"int": 0, "str": ""}
+
+
+def gen_ids(rng, kind, n, avoid=(), prefix="i"):
+    """n distinct identifiers of one kind; special values (falsy, negative, very large, strings that do not sort like
+    numbers) are frequent, and the order of the list (the logical order) is unrelated to the order of the values"""
+    out = []
+    while len(out) < n:
+        if rng.chance(2, 5):
+            x = rng.choice(INT_SPECIAL if kind == "int" else STR_SPECIAL)
+        elif kind == "int":
+            x = rng.randint(-20, 400)
+        else:
+            x = rng.choice([prefix, prefix.upper(), ""]) + str(rng.below(120))
+        if x not in out and x not in avoid:
+            out.append(x)
+    return out
+
+
+def gen_identifiers(rng, nu, ni):
+    ids = {}
+    for ent, n, pre in (("u", nu, "u"), ("i", ni, "i")):
+        kind = rng.choice(["int", "str"])
+        known = gen_ids(rng, kind, n, prefix=pre)
+        if FALSY[kind] not in known and rng.chance(1, 3):
+            known[rng.below(n)] = FALSY[kind]
+        unknown = gen_ids(rng, kind, 3, avoid=known, prefix=pre)
+        if FALSY[kind] not in known and FALSY[kind] not in unknown and rng.chance(1, 2):
+            unknown[0] = FALSY[kind]
+        ids[ent] = (kind, known, unknown)
+    return ids
+
+
+def gen_assembly(rng, nu, ni):
+    """how a DatasetBuilder dataset is put together: which entities are declared before the interactions and in how many
+    batches, how many interaction batches there are (rating rows carry their batch), and how the rest is added at the end"""
+    def batches(idx):
+        idx = rng.shuffle(idx)
+        k = rng.randint(1, min(3, max(1, len(idx))))
+        cuts = sorted(rng.sample(list(range(1, len(idx))), k - 1)) if len(idx) > 1 else []
+        return [b for b in (idx[a:z] for a, z in zip([0] + cuts, cuts + [len(idx)])) if b]
+    mode = rng.weighted([("declared", 3), ("insert", 3), ("mixed", 3)])
+    pre = {}
+    for ent, n in (("user", nu), ("item", ni)):
+        if mode == "declared":
+            pre[ent] = batches(list(range(n)))
+        elif mode == "insert":
+            pre[ent] = []
+        else:
+            pre[ent] = batches(rng.subset(range(n), 1, 2))
+    return {"mode": mode, "pre": pre, "first": rng.choice(["user", "item"]), "nbatch": rng.randint(1, 3),
+            "missing_known": rng.choice(["error", "insert"]), "tail": rng.choice(["one", "each"]),
+            "tail_order": [rng.shuffle(list(range(nu))), rng.shuffle(list(range(ni)))]}
 
 
 def gen_case(rng, edge=False):
@@ -82,10 +146,12 @@ def gen_case(rng, edge=False):
                 chosen.append((rng.below(nu), i))
     const = fjson(Fraction(rng.randint(1, 10), 2))
     base = rng.choice([0, 1_600_000_000])
+    idents = gen_identifiers(rng.fork("ids"), nu, ni)
+    assembly = gen_assembly(rng.fork("assembly"), nu, ni)
     ratings = []
     for u, i in rng.shuffle(chosen):
         r = const if style == "constant" else fjson(Fraction(rng.randint(1, 10), 2))
-        ratings.append([u, i, r, base + rng.randint(1, 12) * 100, rng.below(2)])
+        ratings.append([u, i, r, base + rng.randint(1, 12) * 100, rng.below(2), rng.below(assembly["nbatch"])])
     form = rng.weighted([("scalar", 4), ("dict", 4), ("tuple", 2)])
     if form == "scalar":
         d = rng.choice(DAMPS)
@@ -100,7 +166,9 @@ def gen_case(rng, edge=False):
     path = "learn" if form == "tuple" else rng.weighted([("scorer", 3), ("learn", 1)])
     queries = []
     for _ in range(rng.randint(2, 5)):
-        user = rng.weighted([(rng.below(nu), 6), ("unknown", 2), (None, 1)])
+        # a known user whose identifier is falsy is asked about more often than the others
+        special = [u for u in range(nu) if idents["u"][1][u] == FALSY[idents["u"][0]]]
+        user = rng.weighted([(rng.below(nu), 5), (rng.choice(special or [rng.below(nu)]), 2), ("unknown", 2), (None, 1)])
         hk = rng.weighted([("none", 3), ("rated", 5), ("empty", 1), ("unrated", 1)])
         hist = None
         if hk != "none":
@@ -112,7 +180,12 @@ def gen_case(rng, edge=False):
         items = rng.sample(list(range(ni)), rng.randint(0, ni)) + [f"x{k}" for k in rng.subset(range(3), 1, 3)]
         if rng.chance(1, 6) and items:
             items.append(items[0])
-        queries.append({"user": user, "hist": hist, "items": rng.shuffle(items)})
+        if hist is None:
+            form = rng.weighted([("recquery", 2), ("bare", 3), ("np-scalar", 1)]) if user is not None else rng.choice(["recquery", "none"])
+        else:
+            form = "recquery" if user is not None else rng.choice(["recquery", "itemlist"])
+        queries.append({"user": user, "hist": hist, "items": rng.shuffle(items), "form": form,
+                        "by_number": [rng.weighted([(None, 5), ("dataset", 2), ("foreign", 2)]) for _ in range(2)]})
     trep = rng.weighted([("int", 3), ("float", 2), ("date", 10), ("none", 1)])
     unit = rng.choice(["s", "ms", "us", "ns"])
     tz = rng.weighted([(None, 3), ("UTC", 2), ("America/Denver", 1), ("Asia/Kolkata", 1)])
@@ -123,9 +196,12 @@ def gen_case(rng, edge=False):
     cut = [times[0] - 50, rng.choice(times), times[-1] + 50, rng.choice(times) + rng.choice([-50, 50])]
     cutoffs = [fjson(Fraction(2 * c + rng.weighted([(0, 3), (1, 1)]), 2)) for c in rng.sample(cut, 3)]
     pop_items = rng.shuffle(rng.sample(list(range(ni)), rng.randint(0, ni)) + [f"x{k}" for k in rng.subset(range(3), 1, 2)])
-    return {"idkind": rng.choice(["int", "str"]), "nu": nu, "ni": ni, "ratings": ratings, "damping": damping,
+    return {"ukind": idents["u"][0], "uids": idents["u"][1], "unk_uids": idents["u"][2],
+            "ikind": idents["i"][0], "iids": idents["i"][1], "unk_iids": idents["i"][2], "assembly": assembly,
+            "nu": nu, "ni": ni, "ratings": ratings, "damping": damping,
             "entities": entities, "path": path, "queries": queries, "trep": trep, "unit": unit, "tz": tz,
-            "build": build, "cutoffs": cutoffs, "pop_items": pop_items, "style": style}
+            "build": build, "cutoffs": cutoffs, "pop_items": pop_items, "style": style,
+            "pop_by_number": rng.weighted([(None, 3), ("dataset", 1), ("foreign", 2)])}
 
 
 def gen_cases(rng, tier):
@@ -141,7 +217,7 @@ _ready = False
 
 
 def _setup():
-    global _ready, np, pd, dt, DatasetBuilder, ItemList, RecQuery, BiasModel, BiasScorer, PopScorer, TimeBoundedPopScore
+    global _ready, np, pd, dt, DatasetBuilder, ItemList, RecQuery, Vocabulary, BiasModel, BiasScorer, PopScorer, TimeBoundedPopScore
     if _ready:
         return
     common.use_repo()
@@ -151,21 +227,19 @@ def _setup():
     import pandas as pd
     from lenskit.basic.bias import BiasModel, BiasScorer
     from lenskit.basic.popularity import PopScorer, TimeBoundedPopScore
-    from lenskit.data import DatasetBuilder, ItemList, RecQuery
+    from lenskit.data import DatasetBuilder, ItemList, RecQuery, Vocabulary
 
     _ready = True
 
 
 def uid(case, u):
-    if u == "unknown":
-        return 999 if case["idkind"] == "int" else "zz"
-    return 100 + u if case["idkind"] == "int" else f"u{u:02d}"
+    return case["unk_uids"][0] if u == "unknown" else case["uids"][u]
 
 
 def iid(case, i):
     if isinstance(i, str):          # "x<k>": not in the vocabulary
-        return 900 + int(i[1:]) if case["idkind"] == "int" else f"x{i[1:]}"
-    return 200 + i if case["idkind"] == "int" else f"i{i:02d}"
+        return case["unk_iids"][int(i[1:])]
+    return case["iids"][i]
 
 
 def _num(x):
@@ -176,14 +250,29 @@ def _nums(a):
     return [_num(v) for v in np.asarray(a, dtype=float).tolist()]
 
 
-def _ilist(case, items, ratings=None):
-    ids = [iid(case, x) for x in items]
-    arr = np.array(ids, dtype=np.int64 if case["idkind"] == "int" else object)
-    if not len(ids) and case["idkind"] == "str":
-        arr = np.array([], dtype=str)
-    if ratings is None:
-        return ItemList(item_ids=arr)
-    return ItemList(item_ids=arr, rating=np.array([float(fparse(r)) for r in ratings], dtype=np.float64))
+def _id_array(kind, ids):
+    if kind == "int":
+        return np.array(ids, dtype=np.int64)
+    arr = np.empty(len(ids), dtype=object)
+    arr[:] = ids
+    return arr
+
+
+def _ilist(case, items, ratings=None, by_number=None, ds=None):
+    """an item list by identifier, or by number: with the dataset's vocabulary (all items known), or with a vocabulary of
+    its own that numbers known and unknown identifiers differently from the dataset (foreign)"""
+    fields = {}
+    if ratings is not None:
+        fields["rating"] = np.array([float(fparse(r)) for r in ratings], dtype=np.float64)
+    vocabulary = None
+    if by_number == "dataset" and not any(isinstance(x, str) for x in items):
+        vocabulary = ds.items
+    elif by_number == "foreign":
+        vocabulary = Vocabulary(_id_array(case["ikind"], (case["iids"] + case["unk_iids"])[::-1]), "item", reorder=False)
+    if vocabulary is not None:
+        nums = np.array([vocabulary.number(iid(case, x)) for x in items], dtype=np.int32)
+        return ItemList(item_nums=nums, vocabulary=vocabulary, **fields)
+    return ItemList(item_ids=_id_array(case["ikind"], [iid(case, x) for x in items]), **fields)
 
 
 def _damping_arg(dm):
@@ -213,14 +302,51 @@ def build_dataset(case):
         if case["tz"]:
             col = col.dt.tz_localize("UTC").dt.tz_convert(case["tz"])
         df["timestamp"] = col
+    df["user_id"] = _id_array(case["ukind"], list(df["user_id"]))
+    df["item_id"] = _id_array(case["ikind"], list(df["item_id"]))
     if case.get("build", "builder") == "df":
         from lenskit.data import from_interactions_df
         return from_interactions_df(df)
+    asm = case["assembly"]
     dsb = DatasetBuilder()
-    dsb.add_entities("item", [iid(case, i) for i in range(case["ni"])])
-    dsb.add_entities("user", [uid(case, u) for u in range(case["nu"])])
-    dsb.add_interactions("rating", df, entities=["user", "item"], missing="error", default=True)
+    known = {"user": set(), "item": set()}
+    ident = {"user": lambda k: uid(case, k), "item": lambda k: iid(case, k)}
+    kind = {"user": case["ukind"], "item": case["ikind"]}
+
+    def declare(ent, idx):
+        idx = [k for k in idx if k not in known[ent]]
+        if idx:
+            dsb.add_entities(ent, _id_array(kind[ent], [ident[ent](k) for k in idx]))
+            known[ent].update(idx)
+
+    order = [asm["first"], "item" if asm["first"] == "user" else "user"]
+    for ent in order:
+        for batch in asm["pre"][ent]:
+            declare(ent, batch)
+    first = True
+    for b in range(asm["nbatch"]):
+        rows = [k for k, r in enumerate(case["ratings"]) if r[5] == b]
+        if not rows:
+            continue
+        us, its = {case["ratings"][k][0] for k in rows}, {case["ratings"][k][1] for k in rows}
+        all_known = us <= known["user"] and its <= known["item"]
+        dsb.add_interactions("rating", df.iloc[rows].reset_index(drop=True), entities=["user", "item"],
+                             missing=asm["missing_known"] if all_known else "insert", **({"default": True} if first else {}))
+        first = False
+        known["user"] |= us
+        known["item"] |= its
+    for ent, n, tord in (("user", case["nu"], asm["tail_order"][0]), ("item", case["ni"], asm["tail_order"][1])):
+        rest = [k for k in tord if k < n and k not in known[ent]]
+        if asm["tail"] == "one":
+            declare(ent, rest)
+        else:
+            for k in rest:
+                declare(ent, [k])
     return dsb.build()
+
+
+def _is_sorted(ids):
+    return all(a < b for a, b in zip(ids, ids[1:]))
 
 
 def run_impl(case):
@@ -244,28 +370,45 @@ def run_impl(case):
     obs["item_biases"] = None if m.item_biases is None else [_num(m.item_biases[k]) for k in inum]
     obs["user_biases"] = None if m.user_biases is None else [_num(m.user_biases[k]) for k in unum]
     obs["bias_dtype"] = [str(a.dtype) for a in (m.item_biases, m.user_biases) if a is not None]
+    obs["vocab_sorted"] = [_is_sorted(list(ds.users.ids())), _is_sorted(list(ds.items.ids()))]
     qs = []
     for q in case["queries"]:
+        by_num = q.get("by_number", [None, None])
         hist = None
         if q["hist"] is not None:
             hist = _ilist(case, [x for x, _ in q["hist"]["items"]],
-                          [r for _, r in q["hist"]["items"]] if q["hist"]["rated"] else None)
-        rq = RecQuery(user_id=None if q["user"] is None else uid(case, q["user"]), user_items=hist)
-        res = scorer(rq, _ilist(case, q["items"]))
+                          [r for _, r in q["hist"]["items"]] if q["hist"]["rated"] else None,
+                          by_number=by_num[1], ds=ds)
+        user = None if q["user"] is None else uid(case, q["user"])
+        form = q.get("form", "recquery")
+        if form == "bare":                      # a bare identifier
+            rq = user
+        elif form == "np-scalar":               # the identifier as a NumPy scalar, as read from an array
+            rq = np.int64(user) if case["ukind"] == "int" else np.str_(user)
+        elif form == "none":
+            rq = None
+        elif form == "itemlist":                # the history alone
+            rq = hist
+        else:
+            rq = RecQuery(user_id=user, user_items=hist)
+        res = scorer(rq, _ilist(case, q["items"], by_number=by_num[0], ds=ds))
         ok_ids = list(res.ids()) == [iid(case, x) for x in q["items"]]
         qs.append({"scores": _nums(res.scores()), "aligned": ok_ids})
     obs["queries"] = qs
     pop = {}
+    everything = list(range(case["ni"])) + ["x0"]
     for v in VARIANTS:
         p = PopScorer(score=v)
         try:
             p.train(ds)
         except TypeError as e:
-            pop[v] = {"scores": "EType", "call": [], "dtype": "", "msg": str(e)[:100]}
+            pop[v] = {"scores": "EType", "call": [], "all": [], "dtype": "", "msg": str(e)[:100]}
             continue
         sc = p.item_scores_
-        called = p(_ilist(case, case["pop_items"]))
-        pop[v] = {"scores": [_num(sc[k]) for k in inum], "call": _nums(called.scores()), "dtype": str(sc.dtype)}
+        called = p(_ilist(case, case["pop_items"], by_number=case.get("pop_by_number"), ds=ds))
+        whole = p(_ilist(case, everything))
+        pop[v] = {"scores": [_num(sc[k]) for k in inum], "call": _nums(called.scores()), "all": _nums(whole.scores()),
+                  "dtype": str(sc.dtype)}
     obs["pop"] = pop
     tb = []
     for c in case["cutoffs"]:
@@ -278,6 +421,7 @@ def run_impl(case):
             try:
                 p.train(ds)
                 row[v] = [_num(p.item_scores_[k]) for k in inum]
+                row[v + "-call"] = _nums(p(_ilist(case, everything)).scores())
             except TypeError as e:
                 row[v] = "EType"
                 row["msg"] = str(e)[:100]
@@ -322,10 +466,20 @@ def rep_label(case):
     return f"datetime64[{case['unit']}" + (f",{case['tz']}]" if case["tz"] else "]")
 
 
+def id_codes(kind, ids):
+    """identifiers as integers for the model: the integer itself, or the rank of the string in code-point order"""
+    if kind == "int":
+        return {x: x for x in ids}
+    return {x: k for k, x in enumerate(sorted(set(ids)))}
+
+
 def coq_term(case, obs):
     dv = _damp_vals(case["damping"])
     ei, eu = "item" in case["entities"], "user" in case["entities"]
     rs = clist(case["ratings"], lambda r: f"({cnat(r[0])}, {cnat(r[1])}, {cq(fparse(r[2]))})")
+    cu = id_codes(case["ukind"], case["uids"] + case["unk_uids"])
+    ci = id_codes(case["ikind"], case["iids"] + case["unk_iids"])
+    c_item = lambda x: cz(ci[iid(case, x)])
     parts = []
     if any(v is None for v in [obs["global"]] + (obs["item_biases"] or []) + (obs["user_biases"] or [])):
         return "false"
@@ -335,21 +489,23 @@ def coq_term(case, obs):
     for q, qo in zip(case["queries"], obs["queries"]):
         if not qo["aligned"] or any(s is None for s in qo["scores"]):
             return "false"
-        user = "None" if q["user"] in (None, "unknown") else f"(Some {cnat(q['user'])})"
+        user = "None" if q["user"] is None else f"(Some {cz(cu[uid(case, q['user'])])})"
         if q["hist"] is None or not q["hist"]["rated"]:
             hist = "None"
         else:
-            hist = "(Some " + clist(q["hist"]["items"], lambda p: f"({c_ref(p[0])}, {cq(fparse(p[1]))})") + ")"
-        qq = f"{{| q_user := {user}; q_hist := {hist} |}}"
-        parts.append(f"agree_qs {TOL} (bias_scores m d {qq} {clist(q['items'], c_ref)}) {c_qs(qo['scores'])}")
+            hist = "(Some " + clist(q["hist"]["items"], lambda p: f"({c_item(p[0])}, {cq(fparse(p[1]))})") + ")"
+        qq = f"{{| iq_user := {user}; iq_hist := {hist} |}}"
+        parts.append(f"agree_qs {TOL} (bias_scores_ids m d uv iv {qq} {clist(q['items'], c_item)}) {c_qs(qo['scores'])}")
     log_items = clist(case["ratings"], lambda r: cnat(r[1]))
+    everything = list(range(case["ni"])) + ["x0"]
     for v in VARIANTS:
         po = obs["pop"][v]
         if isinstance(po["scores"], str):
             return "false"
         sc = clist(po["scores"], c_oq)
-        parts.append(f"agree_pop {TOL} {CVAR[v]} (all_counts {cnat(case['ni'])} {log_items}) {sc}")
-        parts.append(f"all2 (agree_opt {TOL}) (pop_call {sc} {clist(case['pop_items'], c_ref)}) {clist(po['call'], c_oq)}")
+        parts.append(f"agree_pop_ids {TOL} iv {CVAR[v]} (all_counts {cnat(case['ni'])} {log_items}) {sc}")
+        parts.append(f"all2 (agree_opt {TOL}) (pop_call_ids iv {sc} {clist(case['pop_items'], c_item)}) {clist(po['call'], c_oq)}")
+        parts.append(f"all2 (agree_opt {TOL}) (pop_call_ids iv {sc} {clist(everything, c_item)}) {clist(po['all'], c_oq)}")
     log = clist(case["ratings"], lambda r: f"({cnat(r[1])}, {cq(_raw_time(case, r))})")
     rep = f"(TDate {cq(TICKS[case['unit']])})" if case["trep"] == "date" else "TNum"
     if case["trep"] == "date":
@@ -365,9 +521,12 @@ def coq_term(case, obs):
                 counts = f"(all_counts {cnat(case['ni'])} {log_items})"
             else:
                 counts = f"(tb_counts {cnat(case['ni'])} {rep} {cq(fparse(c))} {log})"
-            parts.append(f"agree_pop {TOL} {CVAR[v]} {counts} {clist(row[v], c_oq)}")
+            sc = clist(row[v], c_oq)
+            parts.append(f"agree_pop_ids {TOL} iv {CVAR[v]} {counts} {sc}")
+            parts.append(f"all2 (agree_opt {TOL}) (pop_call_ids iv {sc} {clist(everything, c_item)}) {clist(row[v + '-call'], c_oq)}")
     body = " && ".join(f"({p})" for p in parts)
     return (f"(let d := {{| d_user := {cq(dv['user'])}; d_item := {cq(dv['item'])} |}} in "
+            f"let uv : vocab := {clist(case['uids'], lambda x: cz(cu[x]))} in let iv : vocab := {clist(case['iids'], lambda x: cz(ci[x]))} in "
             f"let m := learn {cnat(case['nu'])} {cnat(case['ni'])} {rs} d {cbool(ei)} {cbool(eu)} in {body})")
 
 
@@ -448,6 +607,18 @@ def check_pop(v, counts, scores, tag, out):
                     return
 
 
+def check_called(v, counts, called, tag, case, out):
+    """the scorer called with the whole catalogue (in logical order) followed by one unknown identifier: the scores
+    returned for the identifiers must meet the variant's definition for the items' own counts"""
+    if len(called) != len(counts) + 1 or called[-1] is not None:
+        out.append((f"{tag}-unknown", f"{v}: scoring the catalogue {case['iids']!r} and the unknown item {case['unk_iids'][0]!r} gave {called}"))
+        return
+    n = len(out)
+    check_pop(v, counts, called[:-1], tag, out)
+    if len(out) > n:
+        out[n] = (out[n][0], out[n][1] + f" -- item identifiers {case['iids']!r}")
+
+
 def oracle(case, obs):
     out = []
     g, bi, bu = doc_offsets(case)
@@ -478,7 +649,9 @@ def oracle(case, obs):
         got = qo["scores"]
         if len(got) != len(want) or not all(_close(a, b) for a, b in zip(got, want)):
             key = "score-history" if hist_used else "score-sum"
-            out.append((key, f"scores {got} differ from global + item + user offsets {[str(w) for w in want]} (history used: {hist_used})"))
+            who = "no user" if q["user"] is None else f"{'unknown' if q['user'] == 'unknown' else 'known'} user {uid(case, q['user'])!r}"
+            out.append((key, f"scores {got} differ from global + item + user offsets {[str(w) for w in want]} (history used: {hist_used}; "
+                             f"query form {q.get('form', 'recquery')}, {who}, items {[iid(case, x) for x in q['items']]!r})"))
     counts = [sum(1 for r in case["ratings"] if r[1] == i) for i in range(case["ni"])]
     for v in VARIANTS:
         po = obs["pop"][v]
@@ -487,7 +660,9 @@ def oracle(case, obs):
             continue
         want_call = [None if isinstance(x, str) else po["scores"][x] for x in case["pop_items"]]
         if po["call"] != want_call:
-            out.append(("pop-call", f"{v}: scoring {case['pop_items']} gave {po['call']}, stored scores give {want_call} (unknown items must be unscored)"))
+            out.append(("pop-call", f"{v}: scoring {[iid(case, x) for x in case['pop_items']]!r} gave {po['call']}, stored scores give {want_call} "
+                                    "(unknown items must be unscored)"))
+        check_called(v, counts, po["all"], "pop-call", case, out)
     for c, row in zip(case["cutoffs"], obs["tb"]):
         cf = fparse(c)
         if case["trep"] == "none":
@@ -498,6 +673,8 @@ def oracle(case, obs):
             tcounts = [sum(1 for r in case["ratings"] if r[1] == i and instant(r) > cf) for i in range(case["ni"])]
         for v in VARIANTS:
             check_pop(v, tcounts, row[v], f"time-bounded[{rep_label(case)}]", out)
+            if not isinstance(row[v], str):
+                check_called(v, tcounts, row[v + "-call"], f"time-bounded[{rep_label(case)}]-call", case, out)
     seen, res = set(), []
     for k, w in out:
         if k not in seen:
@@ -515,7 +692,21 @@ def nontrivial(case, obs):
 
 def counters(case, obs):
     yield "style=" + case["style"]
-    yield "ids=" + case["idkind"]
+    yield f"ids=user:{case['ukind']},item:{case['ikind']}"
+    for name, kind, known, unknown in (("user", case["ukind"], case["uids"], case["unk_uids"]), ("item", case["ikind"], case["iids"], case["unk_iids"])):
+        if FALSY[kind] in known:
+            yield f"falsy-id-known-{name}"
+        if FALSY[kind] in unknown[:1]:
+            yield f"falsy-id-unknown-{name}"
+        if kind == "int" and any(x < 0 for x in known):
+            yield f"negative-id-known-{name}"
+        if kind == "int" and any(abs(x) >= 2**31 for x in known):
+            yield f"large-id-known-{name}"
+    if obs.get("vocab_sorted"):
+        yield "user-vocabulary=" + ("sorted" if obs["vocab_sorted"][0] else "unsorted")
+        yield "item-vocabulary=" + ("sorted" if obs["vocab_sorted"][1] else "unsorted")
+    if case.get("build", "builder") == "builder":
+        yield "assembly=" + case["assembly"]["mode"] + f",batches={len({r[5] for r in case['ratings']})}"
     yield "entities=" + ("+".join(sorted(case["entities"])) or "none")
     yield "damping=" + case["damping"]["form"]
     if case["damping"]["form"] == "dict" and None in (case["damping"]["user"], case["damping"]["item"]):
@@ -539,6 +730,15 @@ def counters(case, obs):
         yield "has-single-rating-entity"
     for q in case["queries"]:
         yield "query-user=" + ("none" if q["user"] is None else "unknown" if q["user"] == "unknown" else "known")
+        yield "query-form=" + q.get("form", "recquery")
+        if q["user"] not in (None, "unknown") and uid(case, q["user"]) == FALSY[case["ukind"]] and q["hist"] is None:
+            yield "query-known-falsy-user-by-id:" + q.get("form", "recquery")
+        for which, flag, lst in (("items", q.get("by_number", [None, None])[0], q["items"]),
+                                 ("history", q.get("by_number", [None, None])[1], [x for x, _ in (q["hist"] or {"items": []})["items"]])):
+            if which == "history" and q["hist"] is None:
+                continue
+            if flag == "foreign" or (flag == "dataset" and not any(isinstance(x, str) for x in lst)):
+                yield f"query-{which}-by-number={flag}"
         if q["hist"] is None:
             yield "query-history=none"
         elif not q["hist"]["rated"]:
